@@ -17,7 +17,6 @@ type RenderOpts struct {
 	Ugly         *base.Rand // extra intra-line white space at token boundaries
 	RenameLocals bool       // v12 -> w12x
 	Spell        func(l *Line, u *Use) string // override the spelling of a type mention ("" = default)
-	ShuffleDecls *base.Rand // permute top-level declarations inside every file
 }
 
 var qualRe = regexp.MustCompile(`«([^»]+)»\.`)
@@ -144,12 +143,7 @@ func Render(p *Prog, o RenderOpts) map[string]string {
 					emit(indent, l)
 				}
 			}
-			decls := f.Decls
-			if o.ShuffleDecls != nil {
-				decls = append([]*Node(nil), decls...)
-				base.Shuffle(o.ShuffleDecls, decls)
-			}
-			for _, d := range decls {
+			for _, d := range f.Decls {
 				noise(0)
 				walk(d, 0)
 			}
